@@ -44,8 +44,8 @@ Fixpoint json_eqb (a b : json) : bool :=
   end.
 
 (* ---- the store: key -> value, kept sorted by key ----------------------------- *)
-Definition key := N.
-Definition lid := N.                       (* a listener (a session of the room) *)
+Notation key := N (only parsing).
+Notation lid := N (only parsing).          (* a listener (a session of the room) *)
 Definition dmap := list (key * json).
 
 Fixpoint dget (m : dmap) (k : key) : option json :=
